@@ -104,6 +104,14 @@ NegR(i, dst)     == Step(dst, PNeg(sc[i]), Neg(pt[i]), Rec("neg", i, 0, dst, 0, 
 MulR(i, dst, m, f) == /\ PDeg(sc[i]) + PDeg(f) <= 2
                       /\ Step(dst, PMul(f, sc[i]), SMul(KVal(m, f), pt[i]), Rec("mul", i, 0, dst, m, f))
                       /\ UNCHANGED blind
+\* dst := (m*N + f) * register i through the key-agreement entry point: the caller hands over the scalar and the
+\* affine coordinates of the other party's public point (a pair, not a point object) and receives the product.
+\* It is scalar multiplication like any other: the same integers k are in scope.  A public key is never infinity.
+SharedKey(i, dst, m, f) == /\ PDeg(sc[i]) + PDeg(f) <= 2
+                           /\ sc[i] # PZero
+                           /\ Concrete => pt[i] # Inf
+                           /\ Step(dst, PMul(f, sc[i]), SMul(KVal(m, f), pt[i]), Rec("shared", i, 0, dst, m, f))
+                           /\ UNCHANGED blind
 Clear(dst) == Step(dst, PZero, Inf, Rec("clear", 0, 0, dst, 0, PZero)) /\ UNCHANGED blind
 
 Next == \/ \E dst \in Regs, m \in OrderMults, f \in LoadForms :
@@ -111,7 +119,7 @@ Next == \/ \E dst \in Regs, m \in OrderMults, f \in LoadForms :
         \/ \E f \in LoadForms : SetBlind(f)
         \/ \E i \in Regs, j \in Regs, dst \in Regs : AddRR(i, j, dst) \/ SubRR(i, j, dst)
         \/ \E i \in Regs, dst \in Regs : NegR(i, dst)
-        \/ \E i \in Regs, dst \in Regs, m \in OrderMults, f \in MultForms : MulR(i, dst, m, f)
+        \/ \E i \in Regs, dst \in Regs, m \in OrderMults, f \in MultForms : MulR(i, dst, m, f) \/ SharedKey(i, dst, m, f)
         \/ \E dst \in Regs : Clear(dst)
 Spec == Init /\ [][Next]_vars
 
